@@ -200,7 +200,7 @@ func (dec *tomlDecoder) decodeNode(tomlNode *toml.Node) (*CandidateNode, error) 
 
 }
 
-func (dec *tomlDecoder) Decode() (*CandidateNode, error) {
+func (dec *tomlDecoder) Decode() (result *CandidateNode, resultErr error) {
 	if dec.finished {
 		return nil, io.EOF
 	}
@@ -214,6 +214,8 @@ func (dec *tomlDecoder) Decode() (*CandidateNode, error) {
 			if !ok {
 				deferredError = fmt.Errorf("pkg: %v", r)
 			}
+			// a panic unwinds past the return statements: report it through the named results
+			result, resultErr = nil, deferredError
 		}
 	}()
 
@@ -349,10 +351,15 @@ func (dec *tomlDecoder) processArrayTable(currentNode *toml.Node) (bool, error) 
 	}
 
 	tableValue := dec.parser.Expression()
-	runAgainstCurrentExp, err := dec.decodeKeyValuesIntoMap(tableNodeValue, tableValue)
-	log.Debugf("table node err: %w", err)
-	if err != nil && !errors.Is(err, io.EOF) {
-		return false, err
+	runAgainstCurrentExp := true
+	var err error
+	// a header directly after this one: the element is an empty table and that header is processed next
+	if tableValue.Kind == toml.KeyValue {
+		runAgainstCurrentExp, err = dec.decodeKeyValuesIntoMap(tableNodeValue, tableValue)
+		log.Debugf("table node err: %w", err)
+		if err != nil && !errors.Is(err, io.EOF) {
+			return false, err
+		}
 	}
 	c := Context{}
 
